@@ -50,13 +50,13 @@ def run(ck):
         ck.explore(S, ["--depth=2", "--trunc=1"], "d2-b1-chunk2-asan", budget=1, deadline_s=50, jobs=JOBS)
         ck.explore(S, ["--depth=2", "--trunc=1"] + grow, "d2-b2-chunk2-asan-grow", budget=2, min_budget=2, deadline_s=30, jobs=JOBS)
     else:
-        ck.explore(P, ["--depth=4", "--trunc=1"], "d4-b1", budget=1, deadline_s=500, jobs=JOBS)
-        ck.explore(P, ["--depth=3", "--trunc=1"], "d3-b2", budget=2, min_budget=2, deadline_s=360, jobs=JOBS)
-        ck.explore(P, ["--depth=4", "--trunc=1"] + full, "d4-b2-full", budget=2, min_budget=2, deadline_s=500, jobs=JOBS)
-        ck.explore(P, ["--depth=3", "--trunc=1"] + full, "d3-b3-full", budget=3, min_budget=3, deadline_s=400, jobs=JOBS)
-        ck.explore(P, ["--depth=3", "--trunc=60"], "d3-b1-every-insn", budget=1, min_budget=1, deadline_s=240, jobs=JOBS)
-        ck.explore(A, ["--depth=3", "--trunc=1"], "d3-b1-asan", budget=1, deadline_s=150, jobs=JOBS)
-        ck.explore(S, ["--depth=3", "--trunc=1"], "d3-b1-chunk2-asan", budget=1, deadline_s=150, jobs=JOBS)
+        # deadlines are sized for a heavily loaded machine (sum 40 min); on an idle 16-core machine the tier takes ~10 min
+        ck.explore(P, ["--depth=4", "--trunc=1"], "d4-b1", budget=1, deadline_s=600, jobs=JOBS)
+        ck.explore(P, ["--depth=3", "--trunc=1"], "d3-b2", budget=2, min_budget=2, deadline_s=600, jobs=JOBS)
+        ck.explore(P, ["--depth=2", "--trunc=1"] + full, "d2-b3-full", budget=3, min_budget=3, deadline_s=200, jobs=JOBS)
+        ck.explore(P, ["--depth=3", "--trunc=40"] + full, "d3-b1-full-every-insn", budget=1, min_budget=1, deadline_s=150, jobs=JOBS)
+        ck.explore(A, ["--depth=2", "--trunc=1"], "d2-b1-asan", budget=1, deadline_s=100, jobs=JOBS)
+        ck.explore(S, ["--depth=3", "--trunc=1"], "d3-b1-chunk2-asan", budget=1, deadline_s=450, jobs=JOBS)
         ck.explore(S, ["--depth=3", "--trunc=1"] + grow, "d3-b2-chunk2-asan-grow", budget=2, min_budget=2, deadline_s=300, jobs=JOBS)
     ck.finish(vlib.mc_coverage(ck.parts, RULE), assumptions=ASSUME)
 
